@@ -47,7 +47,7 @@ def run(ctx):
             continue
         if is_trait_call(t, 'Basis', 'reset_value'):
             continue
-        for s in cg.sites.get(b.path, []):
+        for s in cg.sites_for(b):
             if s['bb'] != bi:
                 continue
             roots = s['targets']
